@@ -346,7 +346,7 @@ impl<'a> IrEmitter<'a> {
             IrDeclKind::Struct(s) => self.emit_struct(s),
             IrDeclKind::Enum(e) => self.emit_enum(e),
             IrDeclKind::TypeAlias { name, ty } => {
-                let name_ident = format_ident!("{}", name);
+                let name_ident = format_ident!("{}", Self::escape_keyword(name));
                 let ty_tokens = self.emit_type(ty);
                 Ok(quote! {
                     type #name_ident = #ty_tokens;
@@ -362,7 +362,7 @@ impl<'a> IrEmitter<'a> {
                 self.validate_const_emittable(name, ty, value)?;
 
                 let vis = self.emit_visibility(visibility);
-                let name_ident = format_ident!("{}", name);
+                let name_ident = format_ident!("{}", Self::escape_keyword(name));
                 let ty_tokens = self.emit_type(ty);
 
                 // If this is a FrozenList/Set/Dict with literal initializer, emit via FrozenX::new(&[...]).
@@ -452,7 +452,7 @@ impl<'a> IrEmitter<'a> {
                 } else {
                     path.iter()
                         .map(|s| {
-                            let ident = format_ident!("{}", s);
+                            let ident = format_ident!("{}", Self::escape_keyword(s));
                             quote! { #ident }
                         })
                         .collect()
@@ -479,7 +479,7 @@ impl<'a> IrEmitter<'a> {
                 let path_ts = join_path_tokens(&path_tokens);
 
                 if let Some(alias_name) = alias {
-                    let alias_ident = format_ident!("{}", alias_name);
+                    let alias_ident = format_ident!("{}", Self::escape_keyword(alias_name));
                     Ok(quote! {
                         use #path_ts as #alias_ident;
                     })
@@ -487,11 +487,11 @@ impl<'a> IrEmitter<'a> {
                     let item_stmts: Vec<TokenStream> = items
                         .iter()
                         .map(|item| {
-                            let name_ident = format_ident!("{}", &item.name);
+                            let name_ident = format_ident!("{}", Self::escape_keyword(&item.name));
                             let path_tokens_clone = path_tokens.clone();
                             let path_ts_clone = join_path_tokens(&path_tokens_clone);
                             if let Some(alias) = &item.alias {
-                                let alias_ident = format_ident!("{}", alias);
+                                let alias_ident = format_ident!("{}", Self::escape_keyword(alias));
                                 quote! { use #path_ts_clone :: #name_ident as #alias_ident; }
                             } else {
                                 quote! { use #path_ts_clone :: #name_ident; }
@@ -513,7 +513,7 @@ impl<'a> IrEmitter<'a> {
     }
 
     fn emit_trait(&self, trait_decl: &super::super::decl::IrTrait) -> Result<TokenStream, EmitError> {
-        let name = format_ident!("{}", &trait_decl.name);
+        let name = format_ident!("{}", Self::escape_keyword(&trait_decl.name));
         let methods: Vec<TokenStream> = trait_decl
             .methods
             .iter()
@@ -528,7 +528,7 @@ impl<'a> IrEmitter<'a> {
     }
 
     fn emit_trait_method(&self, func: &super::super::decl::IrFunction) -> Result<TokenStream, EmitError> {
-        let name = format_ident!("{}", &func.name);
+        let name = format_ident!("{}", Self::escape_keyword(&func.name));
 
         let params: Vec<TokenStream> = func
             .params
@@ -540,7 +540,7 @@ impl<'a> IrEmitter<'a> {
                         super::super::types::Mutability::Immutable => quote! { &self },
                     }
                 } else {
-                    let pname = format_ident!("{}", &p.name);
+                    let pname = format_ident!("{}", Self::escape_keyword(&p.name));
                     let pty = self.emit_type(&p.ty);
                     quote! { #pname: #pty }
                 }
@@ -573,7 +573,7 @@ impl<'a> IrEmitter<'a> {
     }
 
     fn emit_impl(&self, impl_block: &super::super::decl::IrImpl) -> Result<TokenStream, EmitError> {
-        let target_type = format_ident!("{}", &impl_block.target_type);
+        let target_type = format_ident!("{}", Self::escape_keyword(&impl_block.target_type));
 
         let mut regular_methods = Vec::new();
         let mut trait_impls = Vec::new();
@@ -670,7 +670,7 @@ impl<'a> IrEmitter<'a> {
                         let mut init_fields: Vec<TokenStream> = Vec::new();
 
                         for fname in field_names {
-                            let f_ident = format_ident!("{}", fname);
+                            let f_ident = format_ident!("{}", Self::escape_keyword(&fname));
                             if let Some(default_expr) = self
                                 .struct_field_defaults
                                 .get(&(impl_block.target_type.clone(), fname.clone()))
@@ -709,7 +709,7 @@ impl<'a> IrEmitter<'a> {
                     .filter(|m| !matches!(m.name.as_str(), "__eq__" | "__str__" | "__class_name__" | "__fields__"))
                     .map(|m| self.emit_trait_method(m))
                     .collect::<Result<_, _>>()?;
-                let trait_ident = format_ident!("{}", trait_name);
+                let trait_ident = format_ident!("{}", Self::escape_keyword(trait_name));
                 quote! {
                     impl #trait_ident for #target_type {
                         #(#trait_methods)*
@@ -725,7 +725,7 @@ impl<'a> IrEmitter<'a> {
                 quote! {}
             }
         } else if let Some(trait_name) = &impl_block.trait_name {
-            let trait_ident = format_ident!("{}", trait_name);
+            let trait_ident = format_ident!("{}", Self::escape_keyword(trait_name));
             quote! {
                 impl #trait_ident for #target_type {}
             }
@@ -740,7 +740,7 @@ impl<'a> IrEmitter<'a> {
     }
 
     fn emit_method(&self, func: &super::super::decl::IrFunction) -> Result<TokenStream, EmitError> {
-        let name = format_ident!("{}", &func.name);
+        let name = format_ident!("{}", Self::escape_keyword(&func.name));
         let vis = self.emit_visibility(&func.visibility);
         let mutated_params = self.collect_mutated_params(func);
 
@@ -754,7 +754,7 @@ impl<'a> IrEmitter<'a> {
                         super::super::types::Mutability::Immutable => quote! { &self },
                     }
                 } else {
-                    let pname = format_ident!("{}", &p.name);
+                    let pname = format_ident!("{}", Self::escape_keyword(&p.name));
                     let pty = self.emit_type(&p.ty);
                     let needs_mut = mutated_params.contains(&p.name)
                         || matches!(p.mutability, super::super::types::Mutability::Mutable);
@@ -790,7 +790,7 @@ impl<'a> IrEmitter<'a> {
     }
 
     fn emit_function(&self, func: &super::super::decl::IrFunction) -> Result<TokenStream, EmitError> {
-        let name = format_ident!("{}", &func.name);
+        let name = format_ident!("{}", Self::escape_keyword(&func.name));
         let is_main = func.name == conventions::ENTRYPOINT_NAME;
         let mutated_params = self.collect_mutated_params(func);
 
@@ -890,7 +890,7 @@ impl<'a> IrEmitter<'a> {
                 Some(DeriveId::Serialize) => quote! { serde::Serialize },
                 Some(DeriveId::Deserialize) => quote! { serde::Deserialize },
                 _ => {
-                    let d_ident = format_ident!("{}", d);
+                    let d_ident = format_ident!("{}", Self::escape_keyword(d));
                     quote! { #d_ident }
                 }
             })
@@ -924,7 +924,7 @@ impl<'a> IrEmitter<'a> {
                 .fields
                 .iter()
                 .map(|f| {
-                    let fname = format_ident!("{}", &f.name);
+                    let fname = format_ident!("{}", Self::escape_keyword(&f.name));
                     let fty = self.emit_type(&f.ty);
                     let fvis = self.emit_visibility(&f.visibility);
                     quote! { #fvis #fname: #fty }
@@ -936,7 +936,7 @@ impl<'a> IrEmitter<'a> {
                     .fields
                     .iter()
                     .map(|f| {
-                        let fname = format_ident!("{}", &f.name);
+                        let fname = format_ident!("{}", Self::escape_keyword(&f.name));
                         let fty = self.emit_type(&f.ty);
                         quote! { #fname: #fty }
                     })
@@ -945,7 +945,7 @@ impl<'a> IrEmitter<'a> {
                     .fields
                     .iter()
                     .map(|f| {
-                        let fname = format_ident!("{}", &f.name);
+                        let fname = format_ident!("{}", Self::escape_keyword(&f.name));
                         quote! { #fname }
                     })
                     .collect();
@@ -974,14 +974,14 @@ impl<'a> IrEmitter<'a> {
     }
 
     fn emit_enum(&self, e: &super::super::decl::IrEnum) -> Result<TokenStream, EmitError> {
-        let name = format_ident!("{}", &e.name);
+        let name = format_ident!("{}", Self::escape_keyword(&e.name));
         let vis = self.emit_visibility(&e.visibility);
 
         let variants: Vec<TokenStream> = e
             .variants
             .iter()
             .map(|v| {
-                let vname = format_ident!("{}", &v.name);
+                let vname = format_ident!("{}", Self::escape_keyword(&v.name));
                 match &v.fields {
                     super::super::decl::VariantFields::Unit => quote! { #vname },
                     super::super::decl::VariantFields::Tuple(types) => {
@@ -992,7 +992,7 @@ impl<'a> IrEmitter<'a> {
                         let field_tokens: Vec<_> = fields
                             .iter()
                             .map(|f| {
-                                let fname = format_ident!("{}", &f.name);
+                                let fname = format_ident!("{}", Self::escape_keyword(&f.name));
                                 let fty = self.emit_type(&f.ty);
                                 quote! { #fname: #fty }
                             })
@@ -1010,7 +1010,7 @@ impl<'a> IrEmitter<'a> {
                 Some(DeriveId::Serialize) => quote! { serde::Serialize },
                 Some(DeriveId::Deserialize) => quote! { serde::Deserialize },
                 _ => {
-                    let d_ident = format_ident!("{}", d);
+                    let d_ident = format_ident!("{}", Self::escape_keyword(d));
                     quote! { #d_ident }
                 }
             })
@@ -1026,7 +1026,7 @@ impl<'a> IrEmitter<'a> {
             .variants
             .iter()
             .map(|v| {
-                let vname = format_ident!("{}", &v.name);
+                let vname = format_ident!("{}", Self::escape_keyword(&v.name));
                 let vname_str = &v.name;
                 match &v.fields {
                     super::super::decl::VariantFields::Unit => {
